@@ -31,4 +31,16 @@ func init() {
 		NotDecided:  "the 'same collisions as one compile' clause beyond the check-then-commit atomicity of each critical section (history-dependent; see also C17)",
 		Rules:       []func(*World){raSymbols, ra4Symbols},
 	})
+	register(&Property{
+		ID:          "C33",
+		Explanation: "RH4: a query body ((*AnyQuery).Execute → AnyQuery.execute → Query.Execute) is invoked only from task.run on the success edge of task.result.CompareAndSwap(nil, r), and task.result changes only by that election CAS or the un-publication CAS (at most one execution per cache entry on any schedule). RH5: entries leave Executor.tasks only with Executor.dirty held exclusively, and Run holds it shared from entry to exit. RC6: both dependency-edge directions are recorded for every query before any dependency starts. RH6: result.runID is stamped only from Task.runID, which is a fresh counter value per Run or inherited; Changed is their equality. RB: result payload is written only by the leader before close(done) and read only after it. RA: timer map under its mutex; shared fields are sync/atomic types.",
+		NotDecided:  "value equality with a fresh computation; that eviction's closure computation visits exactly the transitive callers",
+		Rules:       []func(*World){rh4Incremental, rh5Incremental, rh6Incremental, rbIncremental, rcIncremental, raIncremental},
+	})
+	register(&Property{
+		ID:          "C34",
+		Explanation: "RD-inc: typestate of the published pending result over task.run and its deferred leader handler, per exit kind (return output / return nil / panic): every handler path must close output.done; paths that only un-publish or do neither are reported. RE-inc: hold accounting (held/free per Task variable, case-split on the async parameter) over Run, task.run, waitUntilDone and Resolve: every normal exit restores the entry state, acquire/release/transferFrom are never applied in the wrong state, unbalanced exits only follow a failed acquire. RC3: followers check for a cycle before sleeping. RF: every blocking select has a ctx.Done arm and every semaphore Acquire uses the run context. RG: executor goroutines only run done(t.run(…)); Execute runs under a deferred recover that cancels the Run with ErrPanic carrying the value.",
+		NotDecided:  "the content of the reported cycle; liveness of user code inside Execute",
+		Rules:       []func(*World){rdIncremental, reIncremental, rcIncremental, rfIncremental, rgIncremental},
+	})
 }
